@@ -44,6 +44,7 @@ impl MirroredClient {
             true,
             false,
             prepared_statement_cache_size,
+            connection_timeout,
         );
 
         Pool::builder()
